@@ -959,6 +959,15 @@ class FuncTranslator:
             raise Unsupported('match method ' + meth)
         if t == 'regex':
             return self.regex_method(v, meth, e)
+        if t == 'numdb':
+            if meth in ('info', 'split') and len(args) == 1 and not e.keywords:
+                a, at = self.expr(args[0])
+                if at != 'str':
+                    raise Unsupported('numdb.%s argument type %s' % (meth, at))
+                if meth == 'info':
+                    return ('(Spec.NumDB.info %s %s)' % (par(v), par(a)), 'list[tuple[str,dict[str,str]]]')
+                return ('(Spec.NumDB.split %s %s)' % (par(v), par(a)), 'list[str]')
+            raise Unsupported('numdb method ' + meth)
         if t == 'module':
             return self.m.dispatch_call(v, meth, e, self)
         if t == 'opt[module]':
